@@ -371,6 +371,70 @@ def e2e_factory(shape, skip_default=False, window=(-1, 0, 1, 2)):
     return harness
 
 
+def _defaults_change_once(mech, dump_before, old, new, val, skip_none=True):
+    """skip_default dumps must be lossless against the defaults in force when the dump is re-parsed, also after the
+    parser's defaults changed (default config file rewritten / re-assigned, set_defaults) between two dumps."""
+    import shutil
+
+    from jsonargparse import ArgumentParser, strip_meta
+
+    d = tempfile.mkdtemp(prefix="c01d_")
+    try:
+        f1 = os.path.join(d, "d1.yaml")
+        with open(f1, "w") as fh:
+            fh.write(f"a: {old}\n")
+        parser = ArgumentParser(exit_on_error=False, default_config_files=[f1])
+        parser.add_argument("--a", type=int, default=0)
+        parser.add_argument("--b", type=str, default="x")
+        if dump_before:
+            parser.dump(parser.parse_args([]), skip_default=True, skip_none=skip_none)
+        if mech == "rewrite-file":
+            with open(f1, "w") as fh:
+                fh.write(f"a: {new}\n")
+        elif mech == "assign-default_config_files":
+            f2 = os.path.join(d, "d2.yaml")
+            with open(f2, "w") as fh:
+                fh.write(f"a: {new}\n")
+            parser.default_config_files = [f2]
+        elif mech == "remove-file":
+            os.unlink(f1)
+        elif mech == "set_defaults":
+            parser.set_defaults(b="y")
+        cfg = parser.parse_args([f"--a={val}"])
+        bad = []
+        for fmt in ("yaml", "json"):
+            text = parser.dump(cfg, format=fmt, skip_default=True, skip_none=skip_none)
+            r = same(strip_meta(cfg), strip_meta(parser.parse_string(text)))
+            if r:
+                bad.append((fmt, r, text))
+        if bad:
+            return Fail("defaults-change:skip_default-dump-not-lossless", routes=bad)
+        return True
+    finally:
+        shutil.rmtree(d, ignore_errors=True)
+
+
+def defaults_change():
+    _defaults_change_once("none", False, 1, 2, 3)
+
+    def harness():
+        mech = S.pick("mechanism", ["none", "rewrite-file", "assign-default_config_files", "remove-file", "set_defaults"])
+        dump_before = S.flag("dump_before_change")
+        old = S.pick("old_default", [0, 1, 2])
+        new = S.pick("new_default", [0, 1, 3])
+        val = S.pick("value", [0, 1, 2, 3])
+        skip_none = S.flag("skip_none")
+        S.note("accepted")
+        if S.replaying is not None:
+            return _defaults_change_once(mech, dump_before, old, new, val, skip_none)
+        from crosshair.tracers import NoTracing
+
+        with NoTracing():
+            return _defaults_change_once(mech, dump_before, old, new, val, skip_none)
+
+    return harness
+
+
 def main(rep, tier):
     rep.functions = FUNCTIONS
     rep.stubs = [FORMAT_STUBS_NOTE, TEXT_STUB_NOTE]
@@ -401,6 +465,7 @@ def main(rep, tier):
 
                 for sj in shard_jobs(sh.name):
                     jobs.append(dict(module="c01", func="adapter_factory", kwargs=dict(shape=sh.name, skip_default=sd, **sj), timeout=200 if tier == "quick" else 900))
+    jobs.append(dict(module="c01", func="defaults_change", kwargs={}, timeout=300))
     e2e_jobs = []
     if tier == "thorough":
         for sh in shapes:
@@ -415,7 +480,7 @@ def main(rep, tier):
     for src in (fails, fails2):
         for cls, samples in src.items():
             for smp in samples:
-                groups.setdefault((cls, smp["kwargs"]["shape"], smp["kwargs"]["skip_default"]), []).append(smp)
+                groups.setdefault((cls, smp["kwargs"].get("shape", smp["harness"]), smp["kwargs"].get("skip_default", True)), []).append(smp)
     for (cls, shape, sd), samples in groups.items():
         reported = False
         for smp in samples:
